@@ -152,6 +152,8 @@ class Sys(e2.DevSys):
         for name, st in sorted(self.stacks.items()):
             if st.alive:
                 acts.append(("stop", name) if st.started else ("start", name))
+                if st.started:
+                    acts.append(("bounce", name))  # graceful stop and start with no loop iteration in between
                 for gap in (0.0, 0.5, 4.0):
                     acts.append(("crash-restart", name, gap))
                 if self.finite:
@@ -176,6 +178,10 @@ class Sys(e2.DevSys):
         elif act[0] == "start":
             st = self.stacks[act[1]]
             st.started = True
+            st.prot.start()
+        elif act[0] == "bounce":
+            st = self.stacks[act[1]]
+            st.prot.stop()
             st.prot.start()
         elif act[0] == "crash":
             self.crash(act[1])
